@@ -34,7 +34,7 @@ class Scheduler:
     def __init__(self, nthreads: int, rng: random.Random | None, *, trace_prefixes: tuple[str, ...],
                  mean_quantum: int = 400, opcode_files: tuple[str, ...] = (), hot_names: frozenset = frozenset(),
                  hot_bias: float = 0.0, schedule: list | None = None, max_steps: int = 3_000_000,
-                 record_locations: bool = True):
+                 record_locations: bool = True, starve: float = 0.0, publish_probe=None):
         self.n = nthreads
         self.rng = rng
         self.trace_prefixes = trace_prefixes
@@ -42,6 +42,14 @@ class Scheduler:
         self.opcode_files = opcode_files
         self.hot_names = hot_names
         self.hot_bias = hot_bias
+        # `publish_probe()` returns a number that changes whenever shared state is published (a cache
+        # entry stored, an engine registered): a thread that has just published something is a good
+        # one to hold back -- "published before it was complete" is the classic window
+        self.publish_probe = publish_probe
+        self._published = None
+        self.starve = starve                     # chance that a thread pre-empted in a hot function is held back for long
+        self.holds = 0
+        self.held: dict[int, int] = {}           # thread -> global step until which it is not chosen (seeded mode only)
         self.replay = schedule is not None
         self.schedule_in = list(schedule) if schedule is not None else None
         self.sched_pos = 0
@@ -116,7 +124,15 @@ class Scheduler:
                 if t in cands:
                     return t
             return cands[0]
-        return self.rng.choice(cands)
+        # a held thread stays parked while anybody else can run: this stretches a window that is
+        # one line wide (between two stores, say) over whole operations of the other threads
+        free = [j for j in cands if self.held.get(j, 0) <= self.steps]
+        if free:
+            return self.rng.choice(free)
+        if self.held.get(i if i is not None else -1, 0) > min(self.held.get(j, 0) for j in cands) or i is None:
+            # everybody is held: the one whose hold ends first goes on, the longest-held waits longest
+            return min(cands, key=lambda j: (self.held.get(j, 0), j))
+        return None if i is not None and self.alive[i] else min(cands, key=lambda j: (self.held.get(j, 0), j))
 
     def _record_segment(self, i: int, exiting: bool = False):
         # a segment that ended because the thread finished is marked: on replay it runs to the
@@ -227,6 +243,23 @@ class Scheduler:
                 if sched.steps > sched.max_steps:
                     sched.overrun = True
                     raise StepLimit()
+                if sched.publish_probe is not None and sched.starve and not sched.replay:
+                    pv = sched.publish_probe()
+                    if pv != sched._published:
+                        first = sched._published is None
+                        sched._published = pv
+                        if not first and sched.rng.random() < 0.6:
+                            sched.holds += 1
+                            if sched.items is not None:
+                                sched.items.append(f'HOLD{i}@{frame.f_code.co_name}:{frame.f_lineno}')
+                            sched.held[i] = max(sched.held.get(i, 0), sched.steps + int(2 ** sched.rng.uniform(14, 19)))
+                            sched.budget = sched.seg_steps
+                if sched.starve and not sched.replay and frame.f_code.co_name in sched.hot_names \
+                        and sched.rng.random() < sched.starve * 0.02:
+                    # inside a hot function every line may be the one where this thread is held back
+                    # while the others run on (a race window is often a single line wide)
+                    sched.held[i] = max(sched.held.get(i, 0), sched.steps + int(2 ** sched.rng.uniform(10, 16)))
+                    sched.budget = sched.seg_steps
                 if sched.seg_steps >= sched.budget and not sched.atomic[i] and not sched.importing[i]:
                     sched._switch(i, frame)
             return local
